@@ -241,13 +241,23 @@ OBJ_SRC = '''
 from taskchain.parameter import AutoParameterObject, ParameterObject
 
 
+_BASE_ELIDE = ['b']          # (a hook may well return a module-level list: the library must not write into it)
+
+
 class Base(AutoParameterObject):
     def __init__(self, a, b=1, verbose=False):
         self.a, self._b, self.verbose = a, b, verbose
 
     @staticmethod
     def dont_persist_default_value_args():
-        return ['b']
+        return _BASE_ELIDE
+
+    @staticmethod
+    def ignore_persistence_args():
+        return _BASE_IGNORE
+
+
+_BASE_IGNORE = ['verbose', 'debug']
 
 
 class Child(Base):                       # adds an argument
